@@ -31,13 +31,18 @@ def sampleRsaPub : Toy.RsaPub := { n := 3233 }
 def sampleEc : Toy.EcPriv := { crv := 1, d := 42 }
 def sampleEcPub (c : Nat) : Toy.EcPub := { crv := Toy.curveIx c, x := 17, y := 23 }
 
+def resOpt {α : Type} (r : Res α) : Option α :=
+  match r with
+  | .ok a => some a
+  | _ => none
+
 def parseBytesKind (s : String) : Option Bytes :=
   match s with
   | "pkcs1priv" => some (Toy.ops.marshalPKCS1Priv sampleRsa)
   | "pkcs1pub" => some (Toy.ops.marshalPKCS1Pub sampleRsaPub)
-  | "pkcs8rsa" => Toy.marshalPKCS8 (.rsa sampleRsa)
-  | "pkcs8ec" => Toy.marshalPKCS8 (.ecdsa sampleEc)
-  | "pkcs8ed" => Toy.marshalPKCS8 .other
+  | "pkcs8rsa" => resOpt (Toy.marshalPKCS8 (.rsa sampleRsa))
+  | "pkcs8ec" => resOpt (Toy.marshalPKCS8 (.ecdsa sampleEc))
+  | "pkcs8ed" => resOpt (Toy.marshalPKCS8 .other)
   | "sec1" => Toy.ops.marshalSEC1 sampleEc
   | "pkixrsa" => Toy.marshalPKIX (.rsa sampleRsaPub)
   | "pkixec" => Toy.marshalPKIX (.ecdsa (sampleEcPub 7))
